@@ -328,10 +328,19 @@ static void resizeAxis(vpsc::Dim dim, const Rectangles& targets,
     // move nodes and reroute
     topology::TopologyConstraints t(dim, tn, edges, clusters, vs, cs);
     COLA_ASSERT(checkDesired(dim,tn,targets,resizes));
-#ifndef NDEBUG
+    // solve() reports whether it was interrupted by a topology change and
+    // wants to be called again.  Bound the number of rounds in all builds:
+    // without assertions a pair of events that keep undoing each other
+    // would otherwise keep this loop going forever.
     unsigned loopCtr=0;
-#endif
-    while(t.solve()) { COLA_ASSERT(++loopCtr<1000); }
+    while(t.solve())
+    {
+        COLA_ASSERT(loopCtr+1<1000);
+        if (++loopCtr>=1000)
+        {
+            break;
+        }
+    }
     //COLA_ASSERT(checkFinal(tn,targets,resizes));
     
     // reposition and resize original nodes
